@@ -94,6 +94,14 @@ CHECKS = {
                      'supply - held at quiescence, claims decided on entry without waiting, no borrower starved, nested <= share.',
                 note='One resource name, amounts 0..2. The leak after an interrupt during acquisition/release is an open known '
                      'finding (KF-C12-interrupted-transfer); other leaks are violations.'),
+    'C14': dict(obs='ObsC14', ref='4/C14',
+                text='TLC checks the ticker model inside USim (interval/delay with periods incl. 0, bodies shorter/equal/longer than '
+                     'the period, alone, next to other tickers and inside until) and emits witness programs; seeded random ticker '
+                     'programs with dyadic periods and negative / non-zero start times are added; TLC validates the real traces '
+                     'against ObsC14 (k-th tick on the grid, yields the current time, IntervalExceeded iff the body overran, delay '
+                     'pauses exactly p) and against ObsC20 (other runnable activities run between iterations).',
+                note='Periods and body durations are integers (model) or dyadic floats (random programs), so that the grid is '
+                     'exact in floating point; negative periods are rejected by a separate direct call in the harness.'),
 }
 
 
